@@ -53,6 +53,10 @@ type Service struct {
 	chainTime                            chaintime.Service
 }
 
+// beaconBlockRootsRetention is the number of slots for which a beacon block root is
+// retained if it has not been used by an aggregation.
+const beaconBlockRootsRetention = 32
+
 // New creates a new sync committee aggregator.
 func New(ctx context.Context, params ...Parameter) (*Service, error) {
 	parameters, err := parseAndCheckParameters(params...)
@@ -136,6 +140,13 @@ func New(ctx context.Context, params ...Parameter) (*Service, error) {
 func (s *Service) SetBeaconBlockRoot(slot phase0.Slot, root phase0.Root) {
 	s.beaconBlockRootsMu.Lock()
 	s.beaconBlockRoots[slot] = root
+	// Roots are removed when their slot is aggregated, but that only happens for slots in which
+	// one of our validators is a selected aggregator; remove the others once they are old.
+	for rootSlot := range s.beaconBlockRoots {
+		if rootSlot+beaconBlockRootsRetention < slot {
+			delete(s.beaconBlockRoots, rootSlot)
+		}
+	}
 	s.beaconBlockRootsMu.Unlock()
 }
 
